@@ -30,6 +30,9 @@ pub struct HistParams {
     pub eod_menu: Vec<Eod>,
     /// informational packets the terminal may add to or drop from a reply are explorer deviations
     pub noise: bool,
+    /// every reply packet of the operations' exchanges is delayed by this many milliseconds
+    /// (a slow terminal that stays within the per-packet time-out)
+    pub delay_ms: u64,
 }
 
 pub struct PolSt {
@@ -101,6 +104,17 @@ impl Policy for HistPolicy {
                 }
                 _ => {}
             }
+        }
+        if st.lazy && st.p.delay_ms > 0 && matches!(x, Xch::Main | Xch::P1 | Xch::P2 | Xch::P3) {
+            let d = std::time::Duration::from_millis(st.p.delay_ms);
+            let mut slow = vec![];
+            for s in steps {
+                if matches!(s, Step::Packet(..)) {
+                    slow.push(Step::Delay(d));
+                }
+                slow.push(s);
+            }
+            steps = slow;
         }
         if x == Xch::P3 && st.eod_chosen == Some(Eod::StatusCompletion) {
             // status information ahead of the final completion
